@@ -570,6 +570,9 @@ def r3(ctx: Ctx) -> None:
 
         # after the lookup started (get_async_zeroconf returned), every exit passes the close iff no instance existed before
         reqs = [n for n in gg.reachable() if any(isinstance(c.func, ast.Attribute) and c.func.attr == "async_request" for c in node_calls(n))]
+        # ... and everything else that runs once an instance may have been created (the construction of the service
+        # info object can raise for an over-long label)
+        reqs = reqs + [s_ for n in getn for l_, s_ in n.succ if l_ != "exc" and s_ not in reqs]
         ctx.ob("C20.R3", gi, "the lookup request is located", len(reqs) >= 1, "")
         for had in (False, True):
             for r in reqs:
@@ -629,8 +632,8 @@ def r3(ctx: Ctx) -> None:
             return None
         return f"{f.qualname}: {norm(c)[:50]}"
 
-    starts = [c for c in _calls(gi) if isinstance(c.func, ast.Attribute) and c.func.attr in ("get_async_zeroconf", "async_request")]
-    ctx.ob("C20.R1", gi, "mDNS start-up and request calls are located", len(starts) >= 2, f"{[norm(c)[:40] for c in starts]}")
+    starts = [c for c in _calls(gi) if (isinstance(c.func, ast.Attribute) and c.func.attr in ("get_async_zeroconf", "async_request")) or norm(c.func).split(".")[-1] == "AsyncServiceInfo"]
+    ctx.ob("C20.R1", gi, "mDNS start-up, service-info construction and request calls are located", len(starts) >= 3, f"{[norm(c)[:40] for c in starts]}")
     for c in starts:
         w = _converted(gi, c)
         ctx.ob("C20.R1", gi, f"every failure of {norm(c.func)[-40:]} surfaces as ResolveAPIError (so the OS resolver is still tried)", w is None, f"not inside `except Exception: raise ResolveAPIError(...)`: {w}; any other exception class leaves async_resolve_host at once - no fall-back, later addresses unused", node=c)
